@@ -2,6 +2,7 @@ package checks
 
 import (
 	"bytes"
+	"context"
 	"strconv"
 	"strings"
 
@@ -137,6 +138,27 @@ func evalC01(c *Ctx, cs *Case) {
 				}
 				cs.Entry = ""
 			}
+		}
+		// massive mode: the same lines, root blocks in any order (one call per spelling)
+		{
+			bi := branches[int(cs.Seed%uint64(len(branches)))]
+			cs.Entry = "OutputFromMarkdown+Massive"
+			cs.SetDoc(doc)
+			c.Rejournal(cs)
+			o := OutputMD(doc, append(append([]gtree.Option{}, BranchOptions(bi)...), gtree.WithMassive(context.Background()))...)
+			cs.Doc, cs.DocText = nil, ""
+			c.Eval(gen.HashString(spkey+strconv.Itoa(bi)+cs.Entry), nontrivial)
+			c.SetAdd("entries", cs.Entry)
+			det := map[string]any{"spelling": sp.String(), "branch": bi, "doc": doc, "got": trunc(string(o.Out), 2000), "err": errStr(o.Err), "forest": f.String()}
+			switch {
+			case o.Panic != nil:
+				c.Violation(cs, "text.panic", PanicSig(o.Panic, o.Stack), det)
+			case o.Err != nil:
+				c.Violation(cs, "text.err-on-wellformed", "massive", det)
+			case !coverBlocks(string(o.Out), model.RenderBlocks(merged, BranchTuples[bi])):
+				c.Violation(cs, "text.bytes", "massive", det)
+			}
+			cs.Entry = ""
 		}
 		if nontrivial && c.WantSample(cs.Kind) {
 			o := OutputMD(doc, BranchOptions(branches[len(branches)-1])...)
